@@ -5,6 +5,7 @@ package main
 
 import (
 	"go/ast"
+	"go/token"
 	"go/types"
 	"math/big"
 	"strings"
@@ -347,6 +348,80 @@ func init() {
 				return []Value{e}
 			})
 		}
+	}
+	// ---- byte streams: arbitrary data from the peer ----
+	{
+		mb := reg("encoding/binary.Read", "fills *data (fixed-size value or the elements of a slice) with arbitrary bytes from the stream, error arbitrary; ghost lastreadof(T) = the value read into a target of type T", func(ex *Exec, st *State, c *ast.CallExpr, r *Value, a []Value) []Value {
+			u, ok := ast.Unparen(c.Args[2]).(*ast.UnaryExpr)
+			if !ok || u.Op != token.AND {
+				unsupp("binary.Read: data argument must have the form &x")
+			}
+			lv := ex.lvalue(u.X, st)
+			t := lv.typ()
+			if sl, ok := t.Underlying().(*types.Slice); ok {
+				cur := st.readLV(lv)
+				elv := &LValue{kind: lvElem, rootT: sl.Elem(), ref: cur.L[".ref"], idx: cur.L[".off"]}
+				ex.frameCheck(elv, st, c)
+				ex.havocRange(st, sl.Elem(), cur.L[".ref"])
+			} else {
+				nv := freshValue("binread", t)
+				st.assumeValid(nv)
+				ex.assign(lv, nv, st, c)
+				st.ghost["bin.last:"+typeKey(t)] = nv
+			}
+			e := freshValue("readerr", ex.vc.errT)
+			st.assumeValid(e)
+			return []Value{e}
+		})
+		mb.writes = func(call *ast.CallExpr, info *types.Info, w *writes) {
+			if len(call.Args) == 3 {
+				if u, ok := ast.Unparen(call.Args[2]).(*ast.UnaryExpr); ok && u.Op == token.AND {
+					t := info.TypeOf(u.X)
+					if sl, ok := t.Underlying().(*types.Slice); ok {
+						w.fams["R|"+typeKey(sl.Elem())+"|"] = true
+					} else {
+						w.binReads[typeKey(t)] = t
+					}
+				}
+			}
+		}
+		br := reg("(*bufio.Reader).Read", "reads 0 <= n <= len(p) arbitrary bytes into p (possibly fewer than len(p)), error arbitrary", func(ex *Exec, st *State, c *ast.CallExpr, r *Value, a []Value) []Value {
+			bt := types.Typ[types.Byte]
+			p := a[0]
+			lv := &LValue{kind: lvElem, rootT: bt, ref: p.L[".ref"], idx: p.L[".off"]}
+			ex.frameCheck(lv, st, c)
+			ex.havocRange(st, bt, p.L[".ref"])
+			n := freshValue("nread", types.Typ[types.Int])
+			st.assumeValid(n)
+			st.assume(mkAnd(mkCmp("le", mkInt(sortInt, 0), n.scalar()), mkCmp("le", n.scalar(), p.L[".len"])))
+			e := freshValue("readerr", ex.vc.errT)
+			st.assumeValid(e)
+			st.ghost["io.lastn"] = n
+			st.ghost["io.lastwant"] = scalarV(types.Typ[types.Int], p.L[".len"])
+			return []Value{n, e}
+		})
+		br.writes = func(call *ast.CallExpr, info *types.Info, w *writes) {
+			w.fams["R|"+typeKey(types.Typ[types.Byte])+"|"] = true
+			w.ints["io.lastn"] = true
+			w.ints["io.lastwant"] = true
+		}
+		rf := reg("io.ReadFull", "reads exactly len(buf) bytes or fails: err == nil implies n == len(buf); 0 <= n <= len(buf)", func(ex *Exec, st *State, c *ast.CallExpr, r *Value, a []Value) []Value {
+			bt := types.Typ[types.Byte]
+			p := a[1]
+			lv := &LValue{kind: lvElem, rootT: bt, ref: p.L[".ref"], idx: p.L[".off"]}
+			ex.frameCheck(lv, st, c)
+			ex.havocRange(st, bt, p.L[".ref"])
+			n := freshValue("nread", types.Typ[types.Int])
+			st.assumeValid(n)
+			st.assume(mkAnd(mkCmp("le", mkInt(sortInt, 0), n.scalar()), mkCmp("le", n.scalar(), p.L[".len"])))
+			e := freshValue("readerr", ex.vc.errT)
+			st.assumeValid(e)
+			st.assume(mkImplies(mkEq(e.scalar(), mkInt(sortRef, 0)), mkEq(n.scalar(), p.L[".len"])))
+			st.ghost["io.lastn"] = n
+			st.ghost["io.lastwant"] = scalarV(types.Typ[types.Int], p.L[".len"])
+			return []Value{n, e}
+		})
+		rf.writes = br.writes
 	}
 	regSort()
 	reg("(*sync.Mutex).Lock", "mutual exclusion: acquires the ghost permission of the guarded state", func(ex *Exec, st *State, c *ast.CallExpr, r *Value, a []Value) []Value {
